@@ -30,3 +30,40 @@ pub fn prep(toks: &[&str]) -> String {
     }
     out.join(" / ")
 }
+
+pub fn hexs(s: &str) -> String { crate::codec::hex(s.as_bytes()) }
+
+pub fn parse_opts(o: &str) -> SliceOptions {
+    let mut options = SliceOptions::default();
+    if o != "-" {
+        for item in o.split(',') {
+            if let Some(s) = item.strip_prefix("D:") { options.defined_symbols.push(s.to_string()); }
+            if let Some(s) = item.strip_prefix("A:") { options.allowed_lints.push(s.to_string()); }
+        }
+    }
+    options
+}
+
+pub fn show_span(s: Option<&slicec::slice_file::Span>) -> String {
+    match s { Some(s) => format!("{}:{}:{}-{}:{}", s.file, s.start.row, s.start.col, s.end.row, s.end.col), None => "-".into() }
+}
+
+pub fn show_diags(diags: &[slicec::diagnostics::Diagnostic]) -> String {
+    if diags.is_empty() { return "none".into(); }
+    diags.iter().map(|d| {
+        let mut parts = vec![d.code().to_string(), format!("{:?}", d.level()), show_span(d.span()), hexs(&d.message()),
+                             d.scope().map(|s| hexs(s)).unwrap_or("-".into())];
+        for n in d.notes() { parts.push(format!("note:{}:{}", show_span(n.span.as_ref()), hexs(&n.message))); }
+        parts.join(" ")
+    }).collect::<Vec<_>>().join(" ;; ")
+}
+
+/// diags <opts> <hex file>...  ->  every diagnostic (after level update) in recorded order
+pub fn diags(toks: &[&str]) -> String {
+    let options = parse_opts(toks[0]);
+    let texts: Vec<String> = toks[1..].iter().map(|h| text_of(h)).collect();
+    let refs: Vec<&str> = texts.iter().map(|s| s.as_str()).collect();
+    let state = compile_from_strings(&refs, Some(&options));
+    let d = state.diagnostics.into_updated(&state.ast, &state.files, &options);
+    show_diags(&d)
+}
